@@ -75,3 +75,43 @@ SPECS["C14"] = {
     "assumptions": ["alphabet {'{','}','a'}", "variable a bound to the string \"{{a}}\""],
     "outside": ["longer literals", "other bytes / escape sequences (lexer-level unquoting is covered under C08/C18 harnesses)"],
 }
+
+_C06 = ["interpreter/common.go", "interpreter/c06.go"]
+SPECS["C06"] = {
+    "explanation": "Every implicit Go panic site (nil dereference, index/slice bounds, integer division by zero, failed type assertion, unhashable map key, "
+                   "comparison of uncomparable dynamic types, explicit panic/assert) reached while the real parser+interpreter evaluate operator, built-in and "
+                   "container-access programs over a symbolic value universe is an SMT obligation; full-width float64 operands.",
+    "level_text": "bounded: for all operand kinds/values in the stated universe no panic is feasible on any path (except listed known findings)",
+    "level_note": "trusts go/ssa, gosym, z3; universe: null,bool,number(any float64),1-byte string,lists,map,function; programs are templates",
+    "harnesses": [
+        {"name": "H1-binary-operators", "pkg": "interpreter", "files": _C06, "fn": "VerifC06BinaryOperators",
+         "what": "x OP y for 19 operators x 9x9 operand kinds, symbolic contents", "reach": ["before-eval", "after-eval"],
+         "quick": {"unwind": 30, "wall_s": 600}, "thorough": {"unwind": 30, "wall_s": 1500}},
+        {"name": "H2-builtins", "pkg": "interpreter", "files": _C06, "fn": "VerifC06Builtins",
+         "what": "10 built-ins x 0..2 (quick) / 0..3 (thorough) arguments x 9 kinds each", "reach": ["before-eval", "after-eval"],
+         "quick": {"params": {"MAXARGS": 2}, "unwind": 30, "wall_s": 600}, "thorough": {"params": {"MAXARGS": 3}, "unwind": 30, "wall_s": 2400}},
+        {"name": "H2-add-with-index", "pkg": "interpreter", "files": _C06, "fn": "VerifC06Builtins",
+         "what": "add(list, value, index) with all kinds", "reach": ["before-eval", "after-eval"],
+         "quick": {"params": {"MAXARGS": 3, "ONLY": 5, "ARGC": 3}, "unwind": 30, "wall_s": 600}, "thorough": None},
+        {"name": "H3-container-access", "pkg": "interpreter", "files": _C06, "fn": "VerifC06ContainerAccess",
+         "what": "9 access forms x 10 containers x index of 9 kinds (numbers full-width)", "reach": ["before-eval", "after-eval"],
+         "quick": {"unwind": 30, "wall_s": 600}, "thorough": {"unwind": 30, "wall_s": 1500}},
+        {"name": "H3-container-access-smallint", "pkg": "interpreter", "files": _C06, "fn": "VerifC06ContainerAccess",
+         "what": "same, numeric index constrained to an integer in [-99,99] so that its decimal round trip is solved exactly", "reach": ["before-eval", "after-eval"],
+         "quick": {"params": {"SMALLINT": 1}, "unwind": 30, "wall_s": 600}, "thorough": {"params": {"SMALLINT": 1}, "unwind": 30, "wall_s": 1500}},
+        {"name": "H4-sink-attributes", "pkg": "interpreter", "files": _C06, "fn": "VerifC06SinkAttributes",
+         "what": "sink declaration with one attribute of arbitrary kind (5 attributes x 9 kinds)", "reach": ["before-eval", "after-eval", "accepted", "rejected"],
+         "quick": {"unwind": 30, "wall_s": 600}, "thorough": {"unwind": 30, "wall_s": 600}},
+        {"name": "H4-event-state", "pkg": "interpreter", "files": _C06, "fn": "VerifC06EventState",
+         "what": "event state value of 9 kinds against 4 state-pattern kinds, processed by a 1-worker processor", "reach": ["declared", "before-event", "after-event"],
+         "quick": {"unwind": 30, "wall_s": 600}, "thorough": {"unwind": 30, "wall_s": 600}},
+        {"name": "H5-catchable-in-try", "pkg": "interpreter", "files": _C06, "fn": "VerifC06BinaryOperators",
+         "what": "same operator space inside try/except: the statement completes without an escaping error", "reach": ["before-eval", "after-eval"],
+         "quick": {"params": {"TRY": 1}, "unwind": 30, "wall_s": 600}, "thorough": {"params": {"TRY": 1}, "unwind": 30, "wall_s": 1500}},
+        {"name": "H1-prefix-operators", "pkg": "interpreter", "files": _C06, "fn": "VerifC06PrefixOperators",
+         "what": "-x, +x, not x for 9 operand kinds", "reach": ["before-eval", "after-eval"],
+         "quick": {"unwind": 30, "wall_s": 300}, "thorough": {"unwind": 30, "wall_s": 600}},
+    ],
+    "assumptions": ["strings of 1 symbolic byte; lists/maps of the listed shapes"],
+    "outside": ["unbounded recursion", "stdlib functions via the reflection bridge (C19)", "sleep/cron/pulse/now/rand builtins"],
+}
